@@ -102,4 +102,16 @@ CHECKS = {
         assumptions=["interleavings are sequentially consistent at the granularity of individual accesses; hardware store-buffer effects and the RELEASE/ACQUIRE vs RELAXED distinction on x86 are invisible",
                      "one writer party and one reader party; all timeouts are 0 (nothing blocks)"],
     ),
+    "C14": dict(
+        title="blackbox serialisation equals printf",
+        level="exploration",
+        design_ref="DESIGN.md section 4, C14",
+        technique="differential property testing against vsnprintf with grammar-generated formats and genuine variadic calls; ASan on exact-size buffers",
+        level_text="formats generated from a grammar over every supported conversion/flag/width/precision/length modifier with matching extreme argument values are encoded into and decoded from "
+                   "heap buffers of exactly the stated sizes; complete records must decode to vsnprintf's text, the encoder must report exactly the size the record needs, and neither side may write out of bounds",
+        level_note="trusted: glibc vsnprintf as the reference, the harness's size model of a record (format + NUL + argument bytes), ASan; integer-class arguments travel as long through the variadic call (x86-64 SysV)",
+        stages=[rnd("diff", "c14", 1500000, 30000000, essential=["mixed_classes", "precision_or_star", "encoder_limit_hit", "decoder_limit_hit", "exact_fit_encoder", "null_string", "percent_in_string", "long_literal", "special_double", "length_modifier", "roundtrip_compared", "extended_marker"])],
+        assumptions=["C locale", "NULL passed to %s is rendered as (null) by the reference", "h/hh/L modifiers and wide characters are outside the property's list and are not generated",
+                     "a record is only decoded when the encoder reported it complete (return < limit), as the blackbox does"],
+    ),
 }
